@@ -84,6 +84,15 @@ func (s *Slot) ranges() [][2]uintptr {
 // dataPtr reads the data pointer of the slice header p designates.
 func dataPtr(p *[]byte) uintptr { return (*[3]uintptr)(unsafe.Pointer(p))[0] }
 
+// rawLenCap reads len and cap of the slice header p designates as plain words.
+// NOT len(*p)/cap(*p): the Go compiler knows len <= cap for every slice and
+// deletes a "cap(*p) < n" test that follows a "len(*p) == n" test as dead code,
+// while the allocator writes these headers by hand and can get them wrong.
+func rawLenCap(p *[]byte) (int, int) {
+	h := (*[3]uintptr)(unsafe.Pointer(p))
+	return int(h[1]), int(h[2])
+}
+
 // uintptrOf is the address Malloc returned (where the slice header lives).
 func uintptrOf(p *[]byte) uintptr { return uintptr(unsafe.Pointer(p)) }
 
@@ -184,13 +193,13 @@ type Tracker struct {
 	A      *memory.Allocator
 	Salt   uint32  // distinguishes the patterns of different Trackers on one allocator
 	Live   []*Slot // live allocations in allocation order
-	BG     []Slot // background allocations (fixed after SealBG): checked, never freed by scripts
+	BG     []Slot  // background allocations (fixed after SealBG): checked, never freed by scripts
 	bgr    [][2]uintptr
 	nextID uint32
 	// Touched collects the base address (hdr) of everything ever returned, for
 	// clean-up by the caller (pages are found from these).
 	Touched func(hdr uintptr, cap int)
-	Ops int // operations performed (Malloc + Free)
+	Ops     int // operations performed (Malloc + Free)
 }
 
 // NewTracker returns an empty tracker bound to a.
@@ -218,7 +227,7 @@ func (t *Tracker) adopt(p *[]byte, size int) Slot {
 	s := Slot{ID: t.nextID, Size: size, Hdr: uintptr(unsafe.Pointer(p))}
 	t.nextID++
 	s.seed = t.seedOf(s.ID)
-	s.Cap = cap(*p)
+	_, s.Cap = rawLenCap(p)
 	s.Data = dataPtr(p)
 	return s
 }
@@ -230,11 +239,10 @@ func (t *Tracker) mallocChecked(size int, fill bool) (Slot, *Fail) {
 	if p == nil {
 		return Slot{}, failf("malloc-nil", "Malloc(%d) returned nil (mmap failed?)", size)
 	}
-	if len(*p) != size {
-		return Slot{}, failf("len-mismatch", "Malloc(%d) returned len %d", size, len(*p))
-	}
-	if cap(*p) < size {
-		return Slot{}, failf("cap-too-small", "Malloc(%d) returned cap %d < size", size, cap(*p))
+	if l, c := rawLenCap(p); l != size {
+		return Slot{}, failf("len-mismatch", "Malloc(%d) returned len %d", size, l)
+	} else if c < size {
+		return Slot{}, failf("cap-too-small", "Malloc(%d) returned cap %d < size", size, c)
 	}
 	s := t.adopt(p, size)
 	if t.Touched != nil {
@@ -319,11 +327,11 @@ func (t *Tracker) FreeBG(i int) *Fail {
 // CheckSlot verifies one live slot: the header the caller's pointer designates
 // is unchanged (data pointer, len, cap) and the bytes are the pattern.
 func (t *Tracker) CheckSlot(s *Slot) *Fail {
-	b := *s.P()
-	if len(b) != s.Size || cap(b) != s.Cap || dataPtr(s.P()) != s.Data {
+	if l, c := rawLenCap(s.P()); l != s.Size || c != s.Cap || dataPtr(s.P()) != s.Data {
 		return failf("header-changed", "live allocation #%d size %d: slice header is now (len %d, cap %d), was (len %d, cap %d)",
-			s.ID, s.Size, len(b), cap(b), s.Size, s.Cap)
+			s.ID, s.Size, l, c, s.Size, s.Cap)
 	}
+	b := *s.P()
 	if s.unfilled {
 		return nil
 	}
@@ -522,14 +530,15 @@ func (t *Tracker) Defrag(others ...*Tracker) (*DefragReport, *Fail) {
 			return
 		}
 		f := Protect(func() *Fail {
+			nl, nc := rawLenCap(n)
+			if nl != s.Size {
+				return failf("reloc-new-len", "relocated allocation #%d: new slice has len %d, want %d", s.ID, nl, s.Size)
+			}
+			if nc < s.Size {
+				return failf("reloc-new-cap", "relocated allocation #%d: new slice has cap %d < len %d", s.ID, nc, s.Size)
+			}
 			nb := *n
-			if len(nb) != s.Size {
-				return failf("reloc-new-len", "relocated allocation #%d: new slice has len %d, want %d", s.ID, len(nb), s.Size)
-			}
-			if cap(nb) < s.Size {
-				return failf("reloc-new-cap", "relocated allocation #%d: new slice has cap %d < len %d", s.ID, cap(nb), s.Size)
-			}
-			if off := VerifyPattern(nb, s.seed); off >= 0 {
+			if off := VerifyPattern(nb, s.seed); off >= 0 && !s.unfilled {
 				return failf("reloc-new-contents", "relocated allocation #%d (size %d): new slice does not hold the old bytes at the time of the callback (first difference at byte %d)", s.ID, s.Size, off)
 			}
 			return nil
@@ -543,7 +552,7 @@ func (t *Tracker) Defrag(others ...*Tracker) (*DefragReport, *Fail) {
 		byHdr[nh] = s
 		rep.Relocs = append(rep.Relocs, Reloc{Slot: s, Old: oh, New: nh})
 		s.Hdr, s.Moved = nh, s.Moved+1
-		s.Cap = cap(*n)
+		_, s.Cap = rawLenCap(n)
 		s.Data = dataPtr(n)
 		if t.Touched != nil {
 			t.Touched(nh, s.Cap)
@@ -614,12 +623,12 @@ func GroupByPage(slots []*Slot, pageSize uintptr) [][]*Slot {
 
 // Survivor patterns of a page.
 const (
-	PatNone   = iota // free every slot
-	PatFirst         // keep only the lowest slot
-	PatLast          // keep only the highest slot
-	PatAlt           // keep slots 0,2,4,...
-	PatAllBut        // free only slot 1 (all but one survive)
-	PatKeep          // keep all (used for uniform "rest" pages in larger families)
+	PatNone     = iota // free every slot
+	PatFirst           // keep only the lowest slot
+	PatLast            // keep only the highest slot
+	PatAlt             // keep slots 0,2,4,...
+	PatAllBut          // free only slot 1 (all but one survive)
+	PatKeep            // keep all (used for uniform "rest" pages in larger families)
 	NumPatQuick = 5
 )
 
@@ -652,9 +661,9 @@ func Doomed(page []*Slot, pat int) []*Slot {
 
 // Free orders for a list of per-page doomed slots.
 const (
-	OrdAsc = iota // page by page, ascending addresses
-	OrdDesc       // reverse of OrdAsc
-	OrdInterleaved // round robin over the pages (slot 0 of every page, slot 1 of every page …)
+	OrdAsc         = iota // page by page, ascending addresses
+	OrdDesc               // reverse of OrdAsc
+	OrdInterleaved        // round robin over the pages (slot 0 of every page, slot 1 of every page …)
 )
 
 var OrdNames = []string{"ascending", "descending", "interleaved"}
